@@ -927,6 +927,14 @@ class PathSum(object):
         for c, p, _ in st.conds:
             if struct(c) == sa:
                 return p
+        if a[1] == 'hasattr' and len(a[2]) == 2 and is_const(a[2][1]) and \
+                isinstance(a[2][1][1], str) and a[2][0][0] == 'builtin' and \
+                a[2][0][1] in ('int', 'str', 'bytes', 'bytearray', 'dict',
+                               'list', 'tuple', 'set', 'float', 'object'):
+            # a feature test of a builtin type (hasattr(int, 'from_bytes')):
+            # answered for the Python the library runs on (3.x)
+            import builtins as _b
+            return hasattr(getattr(_b, a[2][0][1]), a[2][1][1])
         if a[1] == 'truth':
             x = a[2][0]
             if is_const(x):
@@ -1897,6 +1905,38 @@ class PathSum(object):
         saved = getattr(self, '_lit_scope', None)
         self._lit_scope = owner
         try:
+            v = self._literal(ent[1], ent[2])
+        finally:
+            self._lit_scope = saved
+        if v is None and isinstance(ent[1], (ast.Call, ast.BinOp)):
+            # a constant the class body computes once (a helper of the
+            # module applied to constants): folded
+            v = self._folded_class_constant(ent, owner)
+        return v
+
+    def _folded_class_constant(self, ent, owner):
+        from .fold import Folder, Env, FoldRaise, Opaque
+        F = self.__dict__.get('_folder')
+        if F is None:
+            F = self.__dict__['_folder'] = Folder(self.db)
+        try:
+            val = F.eval(ent[1], Env(ent[2], cls=owner))
+        except (AnalysisError, FoldRaise, RecursionError):
+            return None
+        if isinstance(val, Opaque):
+            return None
+        if val is None or type(val) in (int, str, bool, float, bytes):
+            return const(val)
+        if type(val) is tuple and all(
+                x is None or type(x) in (int, str, bool, float)
+                for x in val):
+            return ('tuple', tuple(const(x) for x in val))
+        return None
+
+    def _unused_class_literal_tail(self, ent, owner):
+        saved = getattr(self, '_lit_scope', None)
+        self._lit_scope = owner
+        try:
             return self._literal(ent[1], ent[2])
         finally:
             self._lit_scope = saved
@@ -2110,6 +2150,14 @@ class PathSum(object):
                     elif isinstance(p, ast.Assign) and all(
                             isinstance(t, ast.Name) for t in p.targets):
                         fine = True
+                    elif isinstance(p, ast.Tuple) and isinstance(
+                            par.get(id(p)), ast.Assign) and len(
+                                par[id(p)].targets) == 1 and isinstance(
+                                    par[id(p)].targets[0], ast.Tuple) and \
+                            len(par[id(p)].targets[0].elts) == len(p.elts) \
+                            and all(isinstance(t, ast.Name) for t in
+                                    par[id(p)].targets[0].elts):
+                        fine = True     # a, b = (_MARK, x): bound to a local
                     elif isinstance(p, ast.Call) and isinstance(
                             p.func, ast.Attribute) and p.func.attr == 'get' \
                             and len(p.args) == 2 and p.args[1] is n:
@@ -2222,6 +2270,12 @@ class PathSum(object):
         except Exception:
             return None
         insts = [t[1] for t in ts if t[0] == 'inst']
+        if insts and isinstance(node, ast.Attribute) and \
+                self._field_holds_foreign(node.attr):
+            # the inference only knows in-repo classes: a field that is also
+            # assigned a library object (connection.socket before the cipher
+            # wrapper replaces it) has no unique in-repo class
+            return None
         if len(insts) == 1:
             return insts[0]
         if insts and attr is not None:
@@ -2232,6 +2286,46 @@ class PathSum(object):
                     is not None:
                 return sorted(insts, key=lambda c: len(self.db.mro(c)))[0]
         return None
+
+    def _field_holds_foreign(self, name):
+        """Some assignment `<x>.name = value` in the program stores what a
+        library call made (socket.socket(...), sock.makefile(...)) -- directly
+        or through a local of the same function."""
+        cache = self.__dict__.setdefault('_foreign_fields', {})
+        if name in cache:
+            return cache[name]
+
+        def library_made(v, m, scope, depth=0):
+            if isinstance(v, ast.Call):
+                try:
+                    ent = self.db.resolve_dotted(m, v.func) if isinstance(
+                        v.func, (ast.Name, ast.Attribute)) else None
+                    ent = self.db.deref(ent) if isinstance(ent, tuple) \
+                        else ent
+                except AnalysisError:
+                    ent = None
+                return not isinstance(ent, (ClassInfo, FuncInfo))
+            if isinstance(v, ast.Name) and scope is not None and depth < 2:
+                for x in ast.walk(scope):
+                    if isinstance(x, ast.Assign) and any(
+                            isinstance(t, ast.Name) and t.id == v.id
+                            for t in x.targets) and library_made(
+                                x.value, m, scope, depth + 1):
+                        return True
+            return False
+        foreign = False
+        for m in self.db.modules.values():
+            scopes = [n for n in ast.walk(m.tree) if isinstance(
+                n, (ast.FunctionDef, ast.AsyncFunctionDef))]
+            for scope in scopes:
+                for n in ast.walk(scope):
+                    if isinstance(n, ast.Assign) and any(
+                            isinstance(t, ast.Attribute) and t.attr == name
+                            for t in n.targets) and library_made(
+                                n.value, m, scope):
+                        foreign = True
+        cache[name] = foreign
+        return foreign
 
     def getattr(self, b, attr, st, fi, node):
         if b[0] == 'nt' and attr in b[1]:
@@ -2293,6 +2387,13 @@ class PathSum(object):
                     if ent.kind in ('class', ):
                         return [(st, ('fn', ent, ('cls', ci)))]
                     return [(st, ('fn', ent, b))]
+                if isinstance(ent, ClassInfo) and exact and \
+                        ad.kind == 'assign' and not any(
+                            self.cg.fields.get((k, attr))
+                            for k in self.db.mro(ci)):
+                    # a class-level name for another class (length_type =
+                    # Short), asked of the very class being summarised
+                    return [(st, ('cls', ent))]
                 if isinstance(ent, tuple) and ent[0] == 'value' and exact \
                         and not any(self.cg.fields.get((k, attr))
                                     for k in self.db.mro(ci)):
@@ -2755,12 +2856,37 @@ class PathSum(object):
             except Exception:
                 targets = []
         if len(targets) == 1 and self.want_inline(targets[0]) and \
-                k == 'attr':
+                k == 'attr' and self._receiver_is_ours(fn[1], targets[0],
+                                                       st, fi, node):
             t = targets[0]
             impl = [fn[1]] if t.kind in ('instance', 'class',
                                          'class_and_instance') else []
             return self.invoke(t, impl + list(args), kwargs, st, fi, node)
         return self.opaque_call(fn, args, kwargs, st, fi, node, targets)
+
+    def _receiver_is_ours(self, recv, target, st, fi, node):
+        """The receiver of a method call is known to be an instance of an
+        in-repo class that has `target` as that method -- not merely "the
+        only in-repo class with a method of that name" (connection.socket is
+        a library socket until a wrapper replaces it)."""
+        if target.cls is None:
+            return True
+        ci = self.term_class(recv, st)
+        if ci is None and isinstance(node, ast.Call) and isinstance(
+                node.func, ast.Attribute):
+            if isinstance(node.func.value, ast.Attribute) and \
+                    self._field_holds_foreign(node.func.value.attr):
+                return False
+            try:
+                ts = self.cg.etype(fi, node.func.value)
+            except Exception:
+                ts = ()
+            kinds = set(t[0] for t in ts)
+            if ts and kinds <= {'inst', 'cls'}:
+                cands = [t[1] for t in ts]
+                return all(target.cls in self.db.mro(c) for c in cands)
+            return False
+        return ci is not None and target.cls in self.db.mro(ci)
 
     def method(self, recv, name, args, kwargs, st, fi, node):
         """Modelled methods of literal values; None = not modelled."""
